@@ -143,7 +143,9 @@ class EventDict(dict, metaclass=MetaEventDict):
             value = self[key]
             if isinstance(value, types.FunctionType):
                 return value(self)
-            elif isinstance(value, tuple):
+            elif type(value) is tuple:
+                # Only plain tuples are arrayed controls, tuple subclasses
+                # with their own interface (e.g. Scale) are returned as is.
                 return arrayed_param(value)
             else:
                 return value
